@@ -394,6 +394,25 @@ def _run_comp(case):
         want_r = com + (Rref @ (want - com).T).T
         top_r = np.array([np.asarray(m_.center, dtype=float) for m_ in turned.scatterers])
         resid["rigid_pos@composite_with_union"] = fnum(max(resid["rigid_pos@composite_with_union"], np.abs(top_r - want_r).max() / (np.abs(want_r).max() + scale)))
+        # ... down to its primitive parts: every part of the union turns rigidly with the rest (the union may sit anywhere in the list
+        # and inside a nested collection)
+        for tag, build, pick in (("first", lambda: Scatterers([u, extra]), lambda c_: (c_.scatterers[0], c_.scatterers[1])),
+                                 ("last", lambda: Scatterers([extra, u]), lambda c_: (c_.scatterers[1], c_.scatterers[0])),
+                                 ("nested", lambda: Scatterers([extra, Scatterers([u])]), lambda c_: (c_.scatterers[1].scatterers[0], c_.scatterers[0]))):
+            cmp0 = build()
+            un0, ex0 = pick(cmp0)
+            parts0 = np.array([un0.s1.center, un0.s2.center, ex0.center], dtype=float)
+            tops0 = np.array([np.asarray(m_.center, dtype=float) for m_ in cmp0.scatterers])
+            piv0 = tops0.mean(0)
+            cmp1 = cmp0.rotated(*ang)
+            un1, ex1 = pick(cmp1)
+            parts1 = np.array([un1.s1.center, un1.s2.center, ex1.center], dtype=float)
+            dd0 = np.linalg.norm(parts0[:, None] - parts0[None], axis=-1)
+            dd1 = np.linalg.norm(parts1[:, None] - parts1[None], axis=-1)
+            resid["pair_rot@union_parts_%s" % tag] = fnum(np.abs(dd0 - dd1).max() / scale)
+            if tag != "nested":
+                wantp = piv0 + (Rref @ (parts0 - piv0).T).T
+                resid["rigid_pos@union_parts_%s" % tag] = fnum(np.abs(parts1 - wantp).max() / (np.abs(wantp).max() + scale))
         return {"resid": resid, "flags": flags, "shape": shape, "n": 2}
     if shape == "nested3" and n >= 3:
         # three levels, unbalanced: [A, [B, [C, D, ...]]]
